@@ -25,8 +25,9 @@ impl Base64 {
     #[verifier::external_body]
     pub fn decode_to_vec<IN: B64In>(encoded: IN, ignore: Option<&[u8]>) -> (r: Result<Vec<u8>, B64Error>)
         ensures
-            r is Ok <==> b64_decode(encoded.in_bytes()) is Some,
-            r matches Ok(v) ==> Some(v@) == b64_decode(encoded.in_bytes()),
+            // strict decoding only when no characters are to be ignored; with an ignore set the result is unconstrained
+            ignore is None ==> (r is Ok <==> b64_decode(encoded.in_bytes()) is Some),
+            ignore is None ==> (r matches Ok(v) ==> Some(v@) == b64_decode(encoded.in_bytes())),
     { unimplemented!() }
     /// ct-codecs Encoder::encode_to_string: Err only on length overflow
     #[verifier::external_body]
